@@ -1,11 +1,306 @@
 package main
 
+import (
+	"bytes"
+	"encoding/json"
+	"fmt"
+	"os"
+	"os/exec"
+	"path/filepath"
+	"sort"
+	"strings"
+	"sync"
+)
+
 // ThoroughResult is what the thorough tier adds to a property's run.
 type ThoroughResult struct {
 	Obls     []Obligation
 	Coverage map[string]any
 }
 
+// Variant is a seeded change of the analysed repository that breaks one rule: a context
+// patch against the reference tree plus the rule that must report it.
+type Variant struct {
+	Property string   `json:"property"`
+	Name     string   `json:"name"`
+	Patch    string   `json:"patch"`  // path relative to the verification directory
+	Expect   []string `json:"expect"` // rule ids (e.g. "C10-R1"), at least one of which must fail
+	Mentions string   `json:"mentions,omitempty"`
+	What     string   `json:"what"`
+	Source   string   `json:"source,omitempty"` // "selftest" or "seeded/<id>"
+}
+
+type variantIndex struct {
+	Variants []Variant `json:"variants"`
+}
+
+func loadVariants(vdir, prop string) ([]Variant, error) {
+	var out []Variant
+	for _, idx := range []string{"selftest/variants/index.json", "seeded/index.json"} {
+		b, err := os.ReadFile(filepath.Join(vdir, idx))
+		if err != nil {
+			if os.IsNotExist(err) {
+				continue
+			}
+			return nil, err
+		}
+		var vi variantIndex
+		if err := json.Unmarshal(b, &vi); err != nil {
+			return nil, fmt.Errorf("%s: %w", idx, err)
+		}
+		for _, v := range vi.Variants {
+			if v.Property == prop {
+				out = append(out, v)
+			}
+		}
+	}
+	sort.Slice(out, func(i, j int) bool { return out[i].Name < out[j].Name })
+	return out, nil
+}
+
+// oblSummary maps obligation keys to verdicts (for comparing two analyses).
+func oblSummary(obls []Obligation) map[string]Verdict {
+	m := map[string]Verdict{}
+	for _, o := range obls {
+		if prev, ok := m[o.Key()]; ok && prev != OK {
+			continue
+		}
+		m[o.Key()] = o.Verdict
+	}
+	return m
+}
+
+func diffSummaries(a, b map[string]Verdict) []string {
+	var out []string
+	for k, v := range a {
+		if w, ok := b[k]; !ok {
+			out = append(out, "only in reference: "+k)
+		} else if v != w {
+			out = append(out, fmt.Sprintf("%s: %s vs %s", k, v, w))
+		}
+	}
+	for k := range b {
+		if _, ok := a[k]; !ok {
+			out = append(out, "only in other: "+k)
+		}
+	}
+	sort.Strings(out)
+	return out
+}
+
 func runThorough(prog *Program, id string, base *PropertyResult, opts RunOptions) *ThoroughResult {
-	return &ThoroughResult{Coverage: map[string]any{}}
+	res := &ThoroughResult{Coverage: map[string]any{}}
+	add := func(rule, construct string, v Verdict, format string, a ...any) {
+		res.Obls = append(res.Obls, Obligation{Property: id, Rule: id + "-" + rule, Construct: construct, Pos: "-", Verdict: v, Detail: fmt.Sprintf(format, a...)})
+	}
+	ref := oblSummary(base.Obls)
+
+	// 1. determinism: a second evaluation with a fresh model on the same program
+	prog.mdl = nil
+	again := evalProperty(prog, id)
+	if d := diffSummaries(ref, oblSummary(again.Obls)); len(d) > 0 {
+		add("T1", "analysis is deterministic", UNDECIDED, "two evaluations of the same program disagree: %s", strings.Join(d, "; "))
+	} else {
+		add("T1", "analysis is deterministic", OK, "a second evaluation with a fresh model yields the same %d obligations", len(ref))
+	}
+
+	// 2. other build configurations
+	type cfgRes struct {
+		Config  string `json:"config"`
+		Status  string `json:"status"`
+		Detail  string `json:"detail,omitempty"`
+		Objects int    `json:"obligations"`
+	}
+	var cfgs []cfgRes
+	for _, alt := range []LoadConfig{
+		{Dir: prog.Cfg.Dir, GOARCH: "386", Toolchain: "local"},
+		{Dir: prog.Cfg.Dir, Tags: "verif", Toolchain: "local"},
+		{Dir: prog.Cfg.Dir, Toolchain: "auto"},
+	} {
+		out, err := runChild(opts.VerifDir, alt, id)
+		name := alt.String()
+		switch {
+		case err != nil && strings.Contains(err.Error(), "DRIVER"):
+			cfgs = append(cfgs, cfgRes{Config: name, Status: "skipped", Detail: clip(err.Error(), 300)})
+			add("T2", "configuration "+configShort(alt), OK, "skipped: the driver for this configuration could not start (%s)", clip(err.Error(), 200))
+		case err != nil:
+			cfgs = append(cfgs, cfgRes{Config: name, Status: "error", Detail: clip(err.Error(), 300)})
+			add("T2", "configuration "+configShort(alt), UNDECIDED, "the repository could not be analysed in this configuration: %s", clip(err.Error(), 400))
+		default:
+			d := diffSummaries(ref, oblSummary(out))
+			if len(d) > 0 {
+				cfgs = append(cfgs, cfgRes{Config: name, Status: "disagrees", Detail: clip(strings.Join(d, "; "), 600), Objects: len(out)})
+				add("T2", "configuration "+configShort(alt), VIOLATION, "the obligations differ from the default configuration: %s", clip(strings.Join(d, "; "), 800))
+			} else {
+				cfgs = append(cfgs, cfgRes{Config: name, Status: "agrees", Objects: len(out)})
+				add("T2", "configuration "+configShort(alt), OK, "same %d obligations and verdicts as the default configuration", len(out))
+			}
+		}
+	}
+	res.Coverage["configurations"] = cfgs
+
+	// 3. seeded variants: each must be reported by the rule it breaks
+	variants, err := loadVariants(opts.VerifDir, id)
+	if err != nil {
+		add("T3", "variant index", UNDECIDED, "%v", err)
+	}
+	type varRes struct {
+		Name     string   `json:"name"`
+		Status   string   `json:"status"` // detected | missed | skipped | error
+		Expect   []string `json:"expect"`
+		Fired    []string `json:"fired,omitempty"`
+		Detail   string   `json:"detail,omitempty"`
+		Source   string   `json:"source,omitempty"`
+		Scenario string   `json:"what,omitempty"`
+	}
+	results := make([]varRes, len(variants))
+	var wg sync.WaitGroup
+	sem := make(chan struct{}, 5)
+	for i, v := range variants {
+		wg.Add(1)
+		go func(i int, v Variant) {
+			defer wg.Done()
+			sem <- struct{}{}
+			defer func() { <-sem }()
+			r := varRes{Name: v.Name, Expect: v.Expect, Source: v.Source, Scenario: v.What}
+			scratch, err := scratchCopy(prog.Cfg.Dir)
+			if err != nil {
+				r.Status, r.Detail = "error", err.Error()
+				results[i] = r
+				return
+			}
+			defer os.RemoveAll(scratch)
+			patch := filepath.Join(opts.VerifDir, v.Patch)
+			if out, err := exec.Command("git", "-C", scratch, "apply", "--whitespace=nowarn", patch).CombinedOutput(); err != nil {
+				r.Status, r.Detail = "skipped", "patch no longer applies to the current tree: "+clip(string(out), 200)
+				results[i] = r
+				return
+			}
+			obls, err := runChild(opts.VerifDir, LoadConfig{Dir: scratch, Toolchain: "local"}, id)
+			if err != nil {
+				r.Status, r.Detail = "error", clip(err.Error(), 300)
+				results[i] = r
+				return
+			}
+			fired := map[string]bool{}
+			hit := false
+			for _, o := range obls {
+				if o.Verdict == OK {
+					continue
+				}
+				// only obligations that are not already failing on the reference tree
+				if v0, ok := ref[o.Key()]; ok && v0 != OK {
+					continue
+				}
+				fired[o.Rule] = true
+				for _, e := range v.Expect {
+					if o.Rule == e && (v.Mentions == "" || strings.Contains(o.Construct+" "+o.Detail, v.Mentions)) {
+						hit = true
+					}
+				}
+			}
+			for k := range fired {
+				r.Fired = append(r.Fired, k)
+			}
+			sort.Strings(r.Fired)
+			if hit {
+				r.Status = "detected"
+			} else {
+				r.Status = "missed"
+			}
+			results[i] = r
+		}(i, v)
+	}
+	wg.Wait()
+	nDet, nSkip := 0, 0
+	for _, r := range results {
+		switch r.Status {
+		case "detected":
+			nDet++
+			add("T3", "seeded variant "+r.Name, OK, "reported by %v (expected one of %v)", r.Fired, r.Expect)
+		case "skipped":
+			nSkip++
+			add("T3", "seeded variant "+r.Name, OK, "skipped: %s", r.Detail)
+		case "missed":
+			add("T3", "seeded variant "+r.Name, UNDECIDED, "the variant (%s) type-checks but none of the expected rules %v reported it (rules that fired: %v): the rule has lost its grip on this construct", r.Scenario, r.Expect, r.Fired)
+		default:
+			add("T3", "seeded variant "+r.Name, UNDECIDED, "the variant could not be analysed: %s", r.Detail)
+		}
+	}
+	res.Coverage["variants_run"] = len(results) - nSkip
+	res.Coverage["variants_detected"] = nDet
+	res.Coverage["variants_skipped"] = nSkip
+	res.Coverage["variants"] = results
+	return res
+}
+
+func configShort(c LoadConfig) string {
+	var p []string
+	if c.GOARCH != "" {
+		p = append(p, "GOARCH="+c.GOARCH)
+	}
+	if c.Tags != "" {
+		p = append(p, "tags="+c.Tags)
+	}
+	if c.Toolchain == "auto" {
+		p = append(p, "repository's own toolchain")
+	}
+	if len(p) == 0 {
+		return "default"
+	}
+	return strings.Join(p, ",")
+}
+
+// runChild analyses one configuration / one scratch copy in a separate process (bounded memory).
+func runChild(vdir string, cfg LoadConfig, id string) ([]Obligation, error) {
+	exe, err := os.Executable()
+	if err != nil {
+		return nil, err
+	}
+	args := []string{"-p", id, "-repo", cfg.Dir, "-json", "-no-evidence", "-verif", vdir}
+	if cfg.Tags != "" {
+		args = append(args, "-tags", cfg.Tags)
+	}
+	if cfg.GOARCH != "" {
+		args = append(args, "-goarch", cfg.GOARCH)
+	}
+	if cfg.Toolchain != "" {
+		args = append(args, "-toolchain", cfg.Toolchain)
+	}
+	cmd := exec.Command(exe, args...)
+	var stdout, stderr bytes.Buffer
+	cmd.Stdout, cmd.Stderr = &stdout, &stderr
+	cmd.Env = append(os.Environ(), "PATH="+origPath)
+	runErr := cmd.Run()
+	var out struct {
+		Error string       `json:"error"`
+		Obls  []Obligation `json:"obligations"`
+	}
+	if err := json.Unmarshal(stdout.Bytes(), &out); err != nil {
+		return nil, fmt.Errorf("child failed (%v): %s %s", runErr, clip(stdout.String(), 200), clip(stderr.String(), 300))
+	}
+	if out.Error != "" {
+		return nil, fmt.Errorf("%s", out.Error)
+	}
+	return out.Obls, nil
+}
+
+// scratchCopy copies the module under analysis to a fresh temporary directory outside
+// /repo and /verif (removed by the caller).
+func scratchCopy(src string) (string, error) {
+	dst, err := os.MkdirTemp("", "electlint-variant-")
+	if err != nil {
+		return "", err
+	}
+	cmd := exec.Command("rsync", "-a", "--exclude", ".git", "--exclude", "_out", strings.TrimSuffix(src, "/")+"/", dst+"/")
+	if out, err := cmd.CombinedOutput(); err != nil {
+		os.RemoveAll(dst)
+		return "", fmt.Errorf("rsync: %v %s", err, out)
+	}
+	// git apply needs a repository or --unsafe-paths; initialise an empty one
+	if out, err := exec.Command("git", "-C", dst, "init", "-q").CombinedOutput(); err != nil {
+		os.RemoveAll(dst)
+		return "", fmt.Errorf("git init: %v %s", err, out)
+	}
+	return dst, nil
 }
